@@ -6,8 +6,9 @@ use crate::checks::{load_case, replay_exit};
 use crate::cmds;
 use crate::ctx::{Ctx, Tier, panic_site};
 use crate::dev::*;
+use crate::explore::{self, System, V};
 use crate::refregion as rr;
-use lorawan_device::verif::{VerifMac, VerifMacState};
+use lorawan_device::verif::{VerifMac, VerifMacState, VerifNbState};
 use rayon::prelude::*;
 use serde::{Deserialize, Serialize};
 use serde_json::{Value, json};
@@ -322,8 +323,8 @@ pub fn eval(c: &Case) -> Vec<(String, String)> {
 
 pub fn run(tier: Tier, replay: Option<&str>) {
     if let Some(path) = replay {
-        let c: Case = serde_json::from_value(load_case(path)).expect("case");
-        replay_exit("C10", path, eval(&c).into_iter().map(|x| x.0).collect());
+        let cj = load_case(path);
+        replay_exit("C10", path, replay_any(&cj));
     }
     let ctx = Ctx::new("C10", tier);
     let th = tier.thorough();
@@ -471,20 +472,58 @@ pub fn run(tier: Tier, replay: Option<&str>) {
         }
         ctx.tick(1);
     });
+    // --- history layer
+    let depth = if crate::ctx::deep() { 5 } else if th { 4 } else { 3 };
+    let mut states = 0u64;
+    let mut transitions = 0u64;
+    let mut capped = false;
+    let mut outcomes: std::collections::BTreeMap<String, u64> = Default::default();
+    let mut hist_cfgs = vec![];
+    for region in &regions {
+        for front in fronts {
+            for otaa in [false, true] {
+                for offs in [0i32, 50] {
+                    if offs != 0 && (otaa || !th) {
+                        continue;
+                    }
+                    let mut dev = if otaa { DevCfg::otaa(region) } else { DevCfg::abp(region) };
+                    dev.offset_ms = offs;
+                    if front == "nb" {
+                        dev.clock_start = Some(0xFFFF_E000);
+                    }
+                    hist_cfgs.push(HistCfg { front: front.into(), dev });
+                }
+            }
+        }
+    }
+    for hc in &hist_cfgs {
+        let cj = serde_json::to_value(hc).unwrap();
+        let st = explore::bfs(&ctx, &json!({"hist": cj}), &|| WSys::new(&hc.front, &hc.dev), depth, 600_000);
+        states += st.states;
+        transitions += st.transitions;
+        capped |= st.capped;
+        for (k, v) in st.outcomes {
+            *outcomes.entry(k).or_insert(0) += v;
+        }
+    }
     let coverage = json!({
+        "states": states,
+        "transitions": transitions,
+        "traces_validated_against_impl": transitions,
+        "history_depth": depth,
+        "history_configurations": hist_cfgs.len(),
+        "history_outcomes": outcomes,
+        "capped": capped,
         "evaluations": ctx.evals(),
         "distinct_nontrivial": nontrivial.load(Ordering::Relaxed),
-        "rule": "eight full sub-products per region and front-end (nb, async, async+Class C), each case a fresh real device brought into the configuration by authentic RXParamSetupReq / RXTimingSetupReq / DlChannelReq downlinks and set_datarate: (P1) every region-defined uplink data rate x RX1DROffset 0..7 x first RNG draw (all 64 for the 72-channel plans); (P2) RXTimingSetupReq delay 0..15 x board offset/lead {0,15,50,100} x TX end time; (P2b, nb) TX end times around 2^31 ms and the 2^32 ms wrap of the clock x delay x offset; (P3) all 16 RX2 data rate values x 2 frequencies x lowest/highest uplink rate; (P4) DlChannelReq on channels 0..3 x 2 frequencies x draws; (P5) joins under join-bias settings x draws; (P6, nb) set_datarate between TX and the windows; (P7) a re-join on a default channel after DlChannelReq remapped its downlink frequency; (P8) NewChannelReq, DlChannelReq, then a NewChannelReq redefining the same channel; (P9) DlChannelReq on a default channel, the mask reduced to an extra channel, that channel deleted (fallback to the default channels). non-trivial = cases with an installed override or a join",
+        "rule": "(H) BFS over histories on one device instance per region x front-end x {ABP, OTAA}: uplinks (first RNG draw from a set), uplinks answered in RX1 or RX2 by RXParamSetupReq (valid: offset 1 / regional maximum, another RX2 data rate and frequency, back to the defaults; invalid in one field: RX2 data rate 14 (RFU in every region), out-of-band frequency, offset above the regional maximum), RXTimingSetupReq 0 / 2 / 15, DlChannelReq, NewChannelReq create / redefine / delete, LinkADRReq (mask down to the extra channel, all channels, lowest data rate), set_datarate lowest / highest, (nb) set_datarate between TX and the windows, unanswered join attempts and (re-)joins whose accept carries other DLSettings / RxDelay in RX1 or RX2; every transaction that transmits is judged against a reference model of the parameters in force (updated only by requests that are unambiguously valid) and the regional tables: RX1 frequency and data rate, RX2 frequency and data rate, Class C parameters, window size limits, window times (nb clock started shortly before its 2^32 ms wrap); states = distinct (device snapshot minus counters and keys, front-end state, reference model). Plus eight full sub-products per region and front-end (nb, async, async+Class C), each case a fresh real device brought into the configuration by authentic RXParamSetupReq / RXTimingSetupReq / DlChannelReq downlinks and set_datarate: (P1) every region-defined uplink data rate x RX1DROffset 0..7 x first RNG draw (all 64 for the 72-channel plans); (P2) RXTimingSetupReq delay 0..15 x board offset/lead {0,15,50,100} x TX end time; (P2b, nb) TX end times around 2^31 ms and the 2^32 ms wrap of the clock x delay x offset; (P3) all 16 RX2 data rate values x 2 frequencies x lowest/highest uplink rate; (P4) DlChannelReq on channels 0..3 x 2 frequencies x draws; (P5) joins under join-bias settings x draws; (P6, nb) set_datarate between TX and the windows; (P7) a re-join on a default channel after DlChannelReq remapped its downlink frequency; (P8) NewChannelReq, DlChannelReq, then a NewChannelReq redefining the same channel; (P9) DlChannelReq on a default channel, the mask reduced to an extra channel, that channel deleted (fallback to the default channels). non-trivial = cases with an installed override or a join",
         "samples": [serde_json::to_value(&cases[0]).unwrap(), serde_json::to_value(&cases[cases.len() / 2]).unwrap(), serde_json::to_value(cases.last().unwrap()).unwrap()],
-        "exhaustive": true,
+        "exhaustive": !capped,
         "regions": regions,
     });
-    let replayer = |cj: &Value| -> Vec<String> {
-        let c: Case = serde_json::from_value(cj.clone()).unwrap();
-        eval(&c).into_iter().map(|x| x.0).collect()
-    };
+    let replayer = |cj: &Value| -> Vec<String> { replay_any(cj) };
     ctx.finish(
-        "exploration",
+        "model_checking",
         coverage,
         vec![
             "regional tables: /verif/harness/mc/src/refregion.rs (RP002-1.0.x; set-valued where revisions differ)".into(),
@@ -496,5 +535,538 @@ pub fn run(tier: Tier, replay: Option<&str>) {
     );
 }
 
-#[allow(dead_code)]
-fn _unused(_: VerifMacState) {}
+// ------------------------------------------------------------------------------------------------
+// History layer: BFS over sequences of window-relevant commands, data-rate changes, (re-)joins and
+// uplinks on one device instance; every transaction that transmits is judged against a reference
+// model of the parameters in force (updated only by requests that are unambiguously valid for the
+// region) and the regional tables.
+// ------------------------------------------------------------------------------------------------
+
+#[derive(Clone, Debug, Serialize, Deserialize, PartialEq, Eq, Hash)]
+pub enum WEv {
+    Up { draw: u32 },
+    /// uplink transaction answered by a downlink that carries `bytes` in FOpts, in RX1 or RX2
+    Cmd { label: String, bytes: Vec<u8>, window: u8 },
+    SetDr(u8),
+    /// nb: uplink during which the application changes the data rate between TX and the windows
+    UpDrBetween { d: u8 },
+    JoinTry { draw: u32 },
+    JoinOk { dl_settings: u8, rx_delay: u8, window: u8 },
+}
+
+#[derive(Clone, Debug, PartialEq, Eq, Hash)]
+pub enum ChanM {
+    Undefined,
+    /// uplink frequency, admissible RX1 frequencies
+    Known(u32, Vec<u32>),
+    /// the statement does not say what a (re-)join does to it: the snapshot decides
+    Unknown,
+}
+
+#[derive(Clone, Debug, PartialEq, Eq, Hash)]
+pub struct WModel {
+    off: u8,
+    rx2_dr: u8,
+    rx2_f: u32,
+    delay_ms: u64,
+    chans: Vec<ChanM>,
+    /// off / RX2 / delay are the regional defaults (nothing negotiated yet in this session)
+    defaults: bool,
+}
+
+impl WModel {
+    fn fresh(region: &str) -> WModel {
+        let (f, d) = rr::rx2_default(region);
+        let mut chans = vec![ChanM::Undefined; 16];
+        if !rr::is_fixed(region) {
+            for (i, c) in rr::default_channels(region).into_iter().enumerate() {
+                chans[i] = ChanM::Known(c, vec![c]);
+            }
+        }
+        WModel { off: 0, rx2_dr: d, rx2_f: f, delay_ms: 1000, chans, defaults: true }
+    }
+
+    /// effect of one request of the alphabet (requests that are invalid for the region change nothing)
+    fn command(&mut self, region: &str, b: &[u8]) {
+        let (lo, hi) = rr::band(region);
+        let inband = |f: u32| f >= lo && f <= hi;
+        let f24 = |x: &[u8]| (x[0] as u32 | (x[1] as u32) << 8 | (x[2] as u32) << 16) * 100;
+        match b[0] {
+            0x05 => {
+                let (off, dr2, f) = ((b[1] >> 4) & 7, b[1] & 0x0F, f24(&b[2..5]));
+                if off <= rr::max_rx1_offset(region) && rr::dr(region, dr2).is_some() && inband(f) {
+                    self.off = off;
+                    self.rx2_dr = dr2;
+                    self.rx2_f = f;
+                    self.defaults = false;
+                }
+            }
+            0x08 => {
+                self.delay_ms = ((b[1] & 0x0F).max(1) as u64) * 1000;
+                self.defaults = false;
+            }
+            0x0A if !rr::is_fixed(region) => {
+                let (idx, f) = (b[1] as usize, f24(&b[2..5]));
+                if idx < 16 && inband(f) {
+                    if let ChanM::Known(_, dl) = &mut self.chans[idx] {
+                        *dl = vec![f];
+                    }
+                }
+            }
+            0x07 if !rr::is_fixed(region) => {
+                let (idx, f) = (b[1] as usize, f24(&b[2..5]));
+                let nd = rr::default_channels(region).len();
+                if idx >= nd && idx < 16 {
+                    if f == 0 {
+                        self.chans[idx] = ChanM::Undefined;
+                    } else if inband(f) {
+                        self.chans[idx] = ChanM::Known(f, vec![f]);
+                    }
+                }
+            }
+            _ => {}
+        }
+    }
+
+    fn joined(&mut self, region: &str, dl_settings: u8, rx_delay: u8) {
+        let (f, d) = rr::rx2_default(region);
+        let (off, dr2) = ((dl_settings >> 4) & 7, dl_settings & 0x0F);
+        // (the alphabet only holds settings that are valid for the region)
+        self.off = off;
+        self.rx2_dr = if rr::dr(region, dr2).is_some() { dr2 } else { d };
+        self.rx2_f = f;
+        self.delay_ms = ((rx_delay & 0x0F).max(1) as u64) * 1000;
+        self.defaults = off == 0 && self.rx2_dr == d && self.delay_ms == 1000;
+        // what a join does to negotiated downlink frequencies and to extra channels is not stated: a default
+        // channel keeps its uplink frequency and may keep a remapped downlink frequency; extra channels are unknown
+        let nd = rr::default_channels(region).len();
+        for (i, c) in self.chans.iter_mut().enumerate() {
+            if rr::is_fixed(region) {
+                continue;
+            }
+            if i < nd {
+                if let ChanM::Known(up, dl) = c {
+                    if !dl.contains(up) {
+                        dl.push(*up);
+                    }
+                }
+            } else if *c != ChanM::Undefined {
+                *c = ChanM::Unknown;
+            }
+        }
+    }
+}
+
+struct Seen {
+    join: bool,
+    tx: Option<Rf>,
+    rx: Vec<Rf>,
+    /// continuous receptions set up before the last single-shot window of the transaction (between the windows)
+    rxc: Vec<Rf>,
+    /// ... and after it (the listening the device returns to once the transaction is over)
+    rxc_after: Vec<Rf>,
+    times: Vec<u64>,
+    ts: u64,
+    before: Option<VerifMac>,
+    panic: Option<String>,
+}
+
+fn judge_history_tx(region: &str, front: &str, dev: &DevCfg, model: &WModel, o: &Seen) -> Vec<(String, String)> {
+    let mut v = vec![];
+    let Some(tx) = &o.tx else { return v };
+    let Some(before) = &o.before else { return v };
+    let kind = if o.join { "join" } else { "data" };
+    let rk = if rr::is_fixed(region) { "fixed" } else { "dynamic" };
+    if o.rx.is_empty() {
+        return vec![(format!("C10|{front}|window-count"), "no receive window was opened after the transmission".into())];
+    }
+    let up_drs: Vec<u8> = rr::dr_index(region, tx.sf, tx.bw).into_iter().filter(|d| *d <= 7).collect();
+    // --- RX1 frequency
+    let want_f: Option<Vec<u32>> = if rr::is_fixed(region) {
+        rr::fixed_channel_of(region, tx.freq).map(|c| vec![rr::fixed_downlink(c)])
+    } else {
+        let known: Vec<&ChanM> = model.chans.iter().filter(|c| matches!(c, ChanM::Known(u, _) if *u == tx.freq)).collect();
+        if !known.is_empty() {
+            Some(known.iter().flat_map(|c| if let ChanM::Known(_, dl) = c { dl.clone() } else { vec![] }).collect())
+        } else if model.chans.iter().any(|c| *c == ChanM::Unknown) {
+            before.region.channels.iter().flatten().find(|ch| ch.frequency == tx.freq).map(|ch| vec![ch.dl_frequency.unwrap_or(ch.frequency)])
+        } else {
+            None
+        }
+    };
+    if let Some(w) = &want_f
+        && !w.contains(&o.rx[0].freq)
+    {
+        v.push((
+            format!("C10|{front}|rx1-frequency|{rk}|{kind}"),
+            format!("uplink on {} Hz, RX1 opened on {} Hz, paired downlink frequency is {:?} Hz", tx.freq, o.rx[0].freq, w),
+        ));
+    }
+    // --- RX1 data rate (joins: only when nothing is negotiated; otherwise whether the join windows use the
+    // negotiated or the default parameters is not stated)
+    let strict = !o.join || model.defaults;
+    let got1 = rr::dr_index(region, o.rx[0].sf, o.rx[0].bw);
+    if got1.is_empty() {
+        v.push((format!("C10|{front}|rx1-undefined-datarate|{rk}|{kind}"), format!("RX1 uses SF{}/{} Hz which the region does not define", o.rx[0].sf, o.rx[0].bw)));
+    } else if strict {
+        let mut want1: Vec<u8> = vec![];
+        for u in &up_drs {
+            want1.extend(rr::rx1_dr(region, *u, model.off));
+        }
+        let want1_lora: Vec<u8> = want1.iter().copied().filter(|d| rr::dr(region, *d).is_some()).collect();
+        if !up_drs.is_empty() && want1_lora.len() == want1.len() && !want1.is_empty() && !got1.iter().any(|g| want1_lora.contains(g)) {
+            v.push((
+                format!("C10|{front}|rx1-datarate|{rk}|{kind}"),
+                format!("uplink DR{:?} (SF{}/{}), RX1DROffset in force {}: RX1 opened at DR{:?}, regional table gives DR{:?}", up_drs, tx.sf, tx.bw, model.off, got1, want1),
+            ));
+        }
+    }
+    // --- RX2
+    if let Some(r2) = o.rx.get(1) {
+        if strict {
+            if r2.freq != model.rx2_f {
+                v.push((format!("C10|{front}|rx2-frequency|{rk}|{kind}"), format!("RX2 opened on {} Hz, negotiated/default is {} Hz", r2.freq, model.rx2_f)));
+            }
+            if let Some(d) = rr::dr(region, model.rx2_dr)
+                && (r2.sf, r2.bw) != (d.sf, d.bw)
+            {
+                v.push((
+                    format!("C10|{front}|rx2-datarate|{rk}|{kind}"),
+                    format!("RX2 opened at SF{}/{}, negotiated/default DR{} is SF{}/{}", r2.sf, r2.bw, model.rx2_dr, d.sf, d.bw),
+                ));
+            }
+        } else if !lora_defined(region, r2.sf, r2.bw) {
+            v.push((format!("C10|{front}|rx2-undefined-datarate|{rk}|{kind}"), format!("SF{}/{}", r2.sf, r2.bw)));
+        }
+        for r in &o.rxc {
+            if r.freq != r2.freq || r.sf != r2.sf || r.bw != r2.bw {
+                v.push((
+                    format!("C10|{front}|classc-not-rx2-parameters|{rk}"),
+                    format!("continuous reception on {} Hz SF{}/{} while RX2 is {} Hz SF{}/{}", r.freq, r.sf, r.bw, r2.freq, r2.sf, r2.bw),
+                ));
+            }
+        }
+    }
+    for (w, r) in o.rx.iter().enumerate() {
+        let idx = rr::dr_index(region, r.sf, r.bw);
+        if !idx.is_empty() && !idx.iter().any(|d| rr::max_payload(region, *d).contains(&r.max_len)) {
+            v.push((format!("C10|{front}|window-size-limit|{rk}"), format!("RX{} at DR{:?} carries max MACPayload {}", w + 1, idx, r.max_len)));
+        }
+    }
+    // --- timing
+    let d1: u64 = if o.join { 5000 } else { model.delay_ms };
+    let ts = o.ts;
+    if front == "nb" {
+        let off = dev.offset_ms as i64;
+        let m = |x: i64| x.rem_euclid(1 << 32);
+        if let Some(&t1) = o.times.first() {
+            let t1 = t1 as i64;
+            if !(t1 == m((ts + d1) as i64 + off) || t1 == m((ts + d1) as i64 - off)) {
+                v.push((format!("C10|nb|rx1-time|{kind}"), format!("RX1 requested at {t1} ms; TX ended at {ts} ms, delay in force {d1} ms, declared offset {off} ms")));
+            }
+            if let Some(&t2) = o.times.get(2)
+                && t2 as i64 != m(t1 + 1000)
+            {
+                v.push((format!("C10|nb|rx2-time|{kind}"), format!("RX2 requested at {t2} ms, RX1 at {t1} ms (must be RX1 + 1000 ms)")));
+            }
+        } else {
+            v.push((format!("C10|nb|timeouts-missing|{kind}"), "no timeout was requested after the transmission".into()));
+        }
+    } else {
+        let lead = dev.offset_ms.unsigned_abs() as u64;
+        let want = [ts + d1 - lead.min(ts + d1), ts + d1 + 1000 - lead.min(ts + d1)];
+        if o.times.is_empty() || o.times.len() > 2 || o.times[..] != want[..o.times.len()] {
+            v.push((format!("C10|{front}|window-times|{kind}"), format!("timer waits {:?}; expected {:?} (TX end {ts}, delay in force {d1}, lead {lead})", o.times, want)));
+        }
+    }
+    v
+}
+
+pub struct WSys {
+    nb: Option<NbCore<14, 0>>,
+    ac: Option<ACore<14, 0>>,
+    front: String,
+    dev: DevCfg,
+    model: WModel,
+    joined: bool,
+    n_tx: u32,
+    outcome: String,
+}
+
+impl WSys {
+    pub fn new(front: &str, dev: &DevCfg) -> Self {
+        let (nb, ac) = if front == "nb" { (Some(NbCore::new(dev)), None) } else { (None, Some(ACore::new(dev, front == "async-c"))) };
+        WSys { nb, ac, front: front.into(), dev: dev.clone(), model: WModel::fresh(&dev.region), joined: !dev.otaa, n_tx: 0, outcome: String::new() }
+    }
+
+    fn snap(&self) -> VerifMac {
+        match (&self.nb, &self.ac) {
+            (Some(c), _) => c.snap(),
+            (_, Some(c)) => c.snap(),
+            _ => unreachable!(),
+        }
+    }
+
+    /// Runs one transaction and collects what the radio and the timer were asked to do.
+    fn transact(&mut self, join: bool, draw: u32, rx1: Option<Frame>, rx2: Option<Frame>, dr_between: Option<u8>) -> Seen {
+        let mut o = Seen { join, tx: None, rx: vec![], rxc: vec![], rxc_after: vec![], times: vec![], ts: 0, before: None, panic: None };
+        self.n_tx += 1;
+        if let Some(core) = &mut self.nb {
+            core.apply(&Ev::Rng(if join { vec![0x1234, draw] } else { vec![draw] }));
+            o.ts = core.tx_done_ms as u64;
+            o.before = Some(core.snap());
+            let micros: Vec<Micro> = if let Some(d) = dr_between {
+                let mut ms = vec![];
+                for e in [Ev::Send { confirmed: false, port: 1, len: 1 }, Ev::TxDone, Ev::SetDr(d), Ev::Timeout, Ev::Timeout, Ev::Timeout, Ev::Timeout] {
+                    ms.extend(core.apply(&e));
+                }
+                ms
+            } else if join {
+                core.apply(&Ev::JoinCycle { rx1, rx2 })
+            } else {
+                core.apply(&Ev::Cycle { confirmed: false, port: 1, len: 1, rx1, rx2 })
+            };
+            for m in &micros {
+                if let Resp::Panic(p) = &m.resp {
+                    o.panic = Some(p.clone());
+                }
+                for op in &m.ops {
+                    match op {
+                        RadioOp::Tx { rf, .. } => o.tx = Some(rf.clone()),
+                        RadioOp::RxReq { rf, .. } => o.rx.push(rf.clone()),
+                        _ => {}
+                    }
+                }
+                if let (Resp::TimeoutRequest(t), Ev::TxDone | Ev::Timeout) = (&m.resp, &m.ev) {
+                    o.times.push(*t as u64);
+                }
+            }
+        } else if let Some(core) = &mut self.ac {
+            // the transmission of the n-th transaction ends at a different time of the board's clock
+            let ts = (self.n_tx as u64 - 1) * 7919 % 50_000;
+            core.inner.borrow_mut().tx_done_ms = ts as u32;
+            o.ts = ts;
+            core.apply(&AEv::Rng(if join { vec![0x1234, draw] } else { vec![draw] }));
+            o.before = Some(core.snap());
+            let script = Script { rx1, rx2, ..Default::default() };
+            let ev = if join { AEv::Join(script) } else { AEv::Send { confirmed: false, port: 1, len: 1, script } };
+            match core.apply(&ev) {
+                None => o.panic = Some("dead".into()),
+                Some(st) => {
+                    if let AResp::Panic(p) = &st.resp {
+                        o.panic = Some(p.clone());
+                    }
+                    for op in &st.ops {
+                        match op {
+                            AOp::Tx { rf, .. } => o.tx = Some(rf.clone()),
+                            AOp::SetupRx { rf, single_ms: Some(_), .. } => {
+                                o.rx.push(rf.clone());
+                                o.rxc.append(&mut o.rxc_after);
+                            }
+                            AOp::SetupRx { rf, single_ms: None, .. } => o.rxc_after.push(rf.clone()),
+                            AOp::TimerAt(t) => o.times.push(*t),
+                            _ => {}
+                        }
+                    }
+                }
+            }
+        }
+        o
+    }
+}
+
+fn w_alphabet(region: &str, nb: bool, joined: bool, otaa: bool) -> Vec<WEv> {
+    let fixed = rr::is_fixed(region);
+    let fq = cmds::freqs(region);
+    let (def_f, def_dr) = rr::rx2_default(region);
+    let alt_dr = (0..14u8).find(|d| *d != def_dr && rr::dr(region, *d).is_some() && rr::max_payload(region, *d).len() == 1).unwrap_or(def_dr);
+    let draws: Vec<u32> = if fixed { vec![0, 9, 37, 63] } else { vec![0, 1, 3] };
+    let mut v = vec![];
+    if !joined {
+        for &d in &draws {
+            v.push(WEv::JoinTry { draw: d });
+        }
+        v.push(WEv::JoinOk { dl_settings: def_dr, rx_delay: 1, window: 1 });
+        v.push(WEv::JoinOk { dl_settings: (1 << 4) | alt_dr, rx_delay: 3, window: 2 });
+        return v;
+    }
+    for &d in &draws {
+        v.push(WEv::Up { draw: d });
+    }
+    let rxp = |dl: u8, f: u32| {
+        let b = cmds::freq_bytes(f);
+        vec![0x05, dl, b[0], b[1], b[2]]
+    };
+    let maxoff = rr::max_rx1_offset(region);
+    let mut c: Vec<(String, Vec<u8>)> = vec![
+        ("rxparam-off1".into(), rxp((1 << 4) | def_dr, def_f)),
+        ("rxparam-offmax-altdr-altf".into(), rxp((maxoff << 4) | alt_dr, fq[3])),
+        ("rxparam-default".into(), rxp(def_dr, def_f)),
+        // one field invalid: nothing may change
+        ("rxparam-rx2dr14".into(), rxp((2 << 4) | 14, fq[3])),
+        ("rxparam-out-of-band".into(), rxp((2 << 4) | alt_dr, fq[1])),
+        ("rxtiming-2".into(), vec![0x08, 2]),
+        ("rxtiming-15".into(), vec![0x08, 15]),
+        ("rxtiming-0".into(), vec![0x08, 0]),
+    ];
+    if maxoff < 7 {
+        c.push(("rxparam-off-above-max".into(), rxp(((maxoff + 1) << 4) | alt_dr, fq[3])));
+    }
+    if !fixed {
+        let b3 = cmds::freq_bytes(fq[3]);
+        let b2 = cmds::freq_bytes(fq[2] + 300_000);
+        let b4 = cmds::freq_bytes(fq[3] + 400_000);
+        c.push(("dlchannel-0".into(), vec![0x0A, 0, b3[0], b3[1], b3[2]]));
+        c.push(("dlchannel-3".into(), vec![0x0A, 3, b2[0], b2[1], b2[2]]));
+        c.push(("newchannel-3".into(), vec![0x07, 3, b3[0], b3[1], b3[2], 0x50]));
+        c.push(("newchannel-3-other".into(), vec![0x07, 3, b4[0], b4[1], b4[2], 0x50]));
+        c.push(("newchannel-3-delete".into(), vec![0x07, 3, 0, 0, 0, 0x50]));
+        c.push(("only-ch3".into(), cmds::link_adr(15, 15, 0x0008, 0, 1, false).bytes));
+        c.push(("all-channels".into(), cmds::link_adr(15, 15, 0x000F, 0, 1, false).bytes));
+    }
+    let drs: Vec<u8> = (0..8).filter(|d| rr::dr(region, *d).is_some() && !(region == "EU868" && *d == 6)).collect();
+    let (lo_dr, hi_dr) = (drs[0], *drs.last().unwrap());
+    c.push(("adr-lowest".into(), cmds::link_adr(lo_dr, 15, 0, 6, 1, false).bytes));
+    for (l, b) in c {
+        let two = l.starts_with("rxparam-off1") || l.starts_with("rxtiming-2") || l.starts_with("dlchannel-0");
+        v.push(WEv::Cmd { label: l.clone(), bytes: b.clone(), window: 1 });
+        if two {
+            v.push(WEv::Cmd { label: l, bytes: b, window: 2 });
+        }
+    }
+    v.push(WEv::SetDr(lo_dr));
+    v.push(WEv::SetDr(hi_dr));
+    if nb {
+        v.push(WEv::UpDrBetween { d: lo_dr });
+        v.push(WEv::UpDrBetween { d: hi_dr });
+    }
+    if otaa {
+        v.push(WEv::JoinTry { draw: draws[1] });
+        v.push(WEv::JoinOk { dl_settings: (1 << 4) | alt_dr, rx_delay: 3, window: 1 });
+        v.push(WEv::JoinOk { dl_settings: def_dr, rx_delay: 0, window: 1 });
+    }
+    v
+}
+
+impl System for WSys {
+    type Ev = WEv;
+    type Key = (VerifMac, Option<VerifNbState>, WModel, bool);
+
+    fn enabled(&self) -> Vec<WEv> {
+        w_alphabet(&self.dev.region, self.front == "nb", self.joined, self.dev.otaa)
+    }
+
+    fn step(&mut self, ev: &WEv) -> Vec<V> {
+        let region = self.dev.region.clone();
+        let front = self.front.clone();
+        let down = |b: &Vec<u8>| Frame::Down { fcnt: Fcnt::Rel(1), confirmed: false, ack: false, fopts: b.clone(), port: None, payload: vec![], tamper: Tamper::None };
+        let ja = |dl: u8, rd: u8, n: u32| Frame::JoinAccept { join_nonce: 0x20 + n, net_id: 0x13, devaddr: DEVADDR, dl_settings: dl, rx_delay: rd, cflist: None, tamper: Tamper::None, trunc: 0 };
+        let model_before = self.model.clone();
+        let o = match ev {
+            WEv::Up { draw } => self.transact(false, *draw, None, None, None),
+            WEv::Cmd { bytes, window, .. } => {
+                let f = Some(down(bytes));
+                if *window == 1 { self.transact(false, 0, f, None, None) } else { self.transact(false, 0, None, f, None) }
+            }
+            WEv::UpDrBetween { d } => self.transact(false, 0, None, None, Some(*d)),
+            WEv::JoinTry { draw } => self.transact(true, *draw, None, None, None),
+            WEv::JoinOk { dl_settings, rx_delay, window } => {
+                let f = Some(ja(*dl_settings, *rx_delay, self.n_tx));
+                if *window == 1 { self.transact(true, 0, f, None, None) } else { self.transact(true, 0, None, f, None) }
+            }
+            WEv::SetDr(d) => {
+                if let Some(c) = &mut self.nb {
+                    c.apply(&Ev::SetDr(*d));
+                } else if let Some(c) = &mut self.ac {
+                    c.apply(&AEv::SetDr(*d));
+                }
+                self.outcome = "set_datarate".into();
+                return vec![];
+            }
+        };
+        let mut out = vec![];
+        if let Some(p) = &o.panic {
+            out.push(V { sig: format!("C10|{front}|panic|{}", panic_site(p)), what: p.clone() });
+            self.outcome = "panic".into();
+            return out;
+        }
+        for (sig, what) in judge_history_tx(&region, &front, &self.dev, &model_before, &o) {
+            out.push(V { sig, what });
+        }
+        // the transaction's downlink takes effect for the NEXT uplink
+        let after = self.snap();
+        match ev {
+            WEv::Cmd { bytes, .. } => self.model.command(&region, bytes),
+            WEv::JoinOk { dl_settings, rx_delay, .. } => {
+                if matches!(after.state, VerifMacState::Joined(_)) {
+                    self.model.joined(&region, *dl_settings, *rx_delay);
+                    self.joined = true;
+                } else {
+                    out.push(V { sig: format!("C10|{front}|join-not-completed"), what: "an authentic JoinAccept in a join window did not join the device".into() });
+                }
+            }
+            WEv::JoinTry { .. } => {
+                self.joined = matches!(after.state, VerifMacState::Joined(_));
+            }
+            _ => {}
+        }
+        // Class C: the listening the device returns to after the transaction uses the RX2 parameters in force then
+        if self.joined && (!o.join || matches!(ev, WEv::JoinOk { .. })) {
+            let rk = if rr::is_fixed(&region) { "fixed" } else { "dynamic" };
+            for r in &o.rxc_after {
+                let dr_ok = match rr::dr(&region, self.model.rx2_dr) {
+                    Some(d) => (r.sf, r.bw) == (d.sf, d.bw),
+                    None => true,
+                };
+                if r.freq != self.model.rx2_f || !dr_ok {
+                    out.push(V {
+                        sig: format!("C10|{front}|classc-after-transaction-not-rx2-parameters|{rk}"),
+                        what: format!("continuous reception after the transaction on {} Hz SF{}/{} while the RX2 parameters in force are {} Hz DR{}", r.freq, r.sf, r.bw, self.model.rx2_f, self.model.rx2_dr),
+                    });
+                }
+            }
+        }
+        self.outcome = format!("{}{}", if o.join { "join" } else { "data" }, o.rx.len());
+        out
+    }
+
+    fn key(&self) -> Self::Key {
+        let mut s = self.snap();
+        if let VerifMacState::Joined(ref mut j) = s.state {
+            j.fcnt_up = 0;
+            j.fcnt_down = None;
+            j.adr_ack_cnt = 0;
+            j.nwkskey = [0; 16];
+            j.appskey = [0; 16];
+        }
+        if let VerifMacState::Otaa { ref mut dev_nonce } = s.state {
+            *dev_nonce = 0;
+        }
+        (s, self.nb.as_ref().map(|c| c.st()), self.model.clone(), self.joined)
+    }
+
+    fn alive(&self) -> bool {
+        self.nb.as_ref().map(|c| c.dead.is_none()).unwrap_or(true) && self.ac.as_ref().map(|c| c.dead.is_none()).unwrap_or(true)
+    }
+
+    fn outcome(&self) -> String {
+        self.outcome.clone()
+    }
+}
+
+fn replay_any(cj: &Value) -> Vec<String> {
+    if let Some(h) = cj.get("cfg").and_then(|c| c.get("hist")) {
+        let hc: HistCfg = serde_json::from_value(h.clone()).expect("hist cfg");
+        let hist: Vec<WEv> = serde_json::from_value(cj["history"].clone()).expect("history");
+        explore::replay(&|| WSys::new(&hc.front, &hc.dev), &hist)
+    } else {
+        let c: Case = serde_json::from_value(cj.clone()).expect("case");
+        eval(&c).into_iter().map(|x| x.0).collect()
+    }
+}
+
+#[derive(Clone, Debug, Serialize, Deserialize)]
+pub struct HistCfg {
+    pub front: String,
+    pub dev: DevCfg,
+}
